@@ -196,9 +196,11 @@ var zooCorpus = map[string][]string{
 		"<rdf:RDF xmlns:rdf=\"http://www.w3.org/1999/02/22-rdf-syntax-ns#\" xmlns:e=\"http://e/\"><e:C rdf:ID=\"a\"><e:p rdf:parseType=\"Collection\"/><e:q rdf:parseType=\"Literal\"><b xmlns=\"u:x\">t</b></e:q></e:C></rdf:RDF>",
 		"<e:C xmlns:e=\"http://e/\" xmlns:rdf=\"http://www.w3.org/1999/02/22-rdf-syntax-ns#\" rdf:nodeID=\"\" e:p=\"v\"/>"},
 	"htmlrdfa": {"<html><body vocab=\"\" typeof=\"\"><p property=\"\" content=\"x\" lang=\"\"></p><a rel=\"\" href=\"\"></a><span property=\"p\" datatype=\"\">x</span></body></html>",
+		"<html><body vocab='http://v/'><p about=\"http://e/s\" property=\"p\" content>x</p><a about=http://e/s rel=\"q\" href>y</a><span about resource property=\"r\" datatype lang>z</span><img about=\"http://e/s\" rel=\"i\" src></body></html>",
 		"<html prefix=\"e: http://e/ e2:\"><body about=\"[_:]\" typeof=\"e:T\"><p property=\"e:p\" inlist=\"\">x</p><p rel=\"e:q\" inlist=\"\" resource=\"[e:]\"></p><time property=\"e:t\" datetime=\"P1D\">x</time></body></html>"},
 	"htmlmicrodata": {"<div itemscope itemtype=\"\" itemid=\" \"><span itemprop=\"\">x</span><a itemprop=\"p\" href=\"\">y</a><meta itemprop=\"q\"><time itemprop=\"t\">z</time><div itemprop=\"r\" itemscope></div></div>",
-		"<div itemscope itemref=\"a a b\" id=\"a\"><span id=\"b\" itemprop=\"p\" itemscope itemref=\"a\">x</span></div>"},
+		"<div itemscope itemref=\"a a b\" id=\"a\"><span id=\"b\" itemprop=\"p\" itemscope itemref=\"a\">x</span></div>",
+		"<div itemscope><a itemprop=\"p\" href>y</a><time itemprop=\"t\" datetime>z</time><meta itemprop=\"q\" content><img itemprop=\"i\" src><data itemprop=\"d\" value>v</data><a itemprop='s' href='http://e/x'>w</a><object itemprop=o data=http://e/y></object></div>"},
 	"htmljsonld":   {"<html><head><script type=\"application/ld+json\">{\"@id\":\"http://e/s\",\"http://e/p\":{\"@value\":\"x\",\"@language\":\"\"}}</script><script type=\"application/ld+json\">[</script></head></html>"},
 	"htmldefaults": {"<html><head><base href=\"http://b/\"><script type=\"application/ld+json\">{\"@id\":\"_:a\",\"http://e/p\":{\"@id\":\"_:a\"}}</script></head><body about=\"_:a\" vocab=\"http://e/\"><p property=\"p\" itemscope itemprop=\"q\">x</p></body></html>"},
 }
